@@ -256,10 +256,10 @@ def r5_grouping_direction(ctx):
         kw = {k.arg: k.value for k in c.keywords}
         d = astx.u(c)
         it0 = c.args[0] if c.args else None
-        if isinstance(it0, ast.Name):
+        from vk import accum
+        if isinstance(it0, ast.Name) and not any(g.dict_name == it0.id for g in accum.groupings(f.node)):
             it0 = astx.unique_def(f.node, it0.id)
         grp = astx.u(it0).replace(".items()", "") if it0 is not None else ""
-        from vk import accum
         gs = [g for g in accum.groupings(f.node) if g.dict_name == grp]
         keyed_by_score = okfill = False
         if len(gs) == 1 and astx.u(gs[0].loop.iter) == f"{sd}.items()" and isinstance(gs[0].loop.target, ast.Tuple) and len(gs[0].loop.target.elts) == 2:
@@ -270,6 +270,11 @@ def r5_grouping_direction(ctx):
         okkey = key is not None and accum.is_first_component_key(key)
         okrev = astx.is_name(kw.get("reverse"), flag)
         good = it0 is not None and astx.u(it0) == f"{grp}.items()" and keyed_by_score and okfill and okkey and okrev
+        # the same order spelled over the keys alone: sorted(D, reverse=flag) with the group looked up afterwards
+        keys_only = it0 is not None and isinstance(it0, ast.Name) and key is None
+        if keys_only:
+            okkey = True
+            good = keyed_by_score and okfill and okrev
         d = f"sorted({grp}.items(), key=score only: {okkey}, reverse={astx.u(kw.get('reverse')) if kw.get('reverse') is not None else None}); grouped by equal score: {keyed_by_score and okfill}"
     ctx.check(bool(good), f, sorts[0] if sorts else f.node, "groups of equal score, sorted by score only, reverse = sort_high_low", d,
               f"ranking construction is `{d}`")
@@ -283,11 +288,19 @@ def r5_grouping_direction(ctx):
     if comps:
         g = comps[0].generators[0]
         good = isinstance(g.target, ast.Tuple) and len(g.target.elts) == 2 and astx.u(comps[0].elt) == f"frozenset({astx.u(g.target.elts[1])})" and not g.ifs
+        if isinstance(g.target, ast.Name) and sorts and sorts[0].args and isinstance(sorts[0].args[0], ast.Name):
+            good = astx.u(comps[0].elt) == f"frozenset({sorts[0].args[0].id}[{g.target.id}])" and not g.ifs
     ctx.check(good, f, comps[0] if comps else f.node, "each score group becomes one tied set, in sorted order", "", "groups are not emitted one frozenset per score in sorted order")
     ctx.check(astx.is_const(f.param_default(flag), True), f, f.node, "sort_high_low defaults to True", "", "default direction is no longer high-to-low")
     # _run_election passes self.sort_high_low; every constructor passes True or leaves the default
     rel = elect.run_election(prog)
     cs = astx.calls_in(rel.node, "score_dict_to_ranking")
+    if not cs:
+        # the round-0 state may be built by the constructor that then calls _run_election
+        init = prog.find_func("Election.__init__")
+        if astx.calls_in(init.node, "_run_election"):
+            rel = init
+            cs = astx.calls_in(rel.node, "score_dict_to_ranking")
     good = len(cs) == 1 and astx.u(astx.bind_args(cs[0], f.params).get(flag)) == "self.sort_high_low"
     ctx.check(good, rel, cs[0] if cs else rel.node, "round-0 order uses the rule's direction flag", "", "_run_election does not pass self.sort_high_low")
     for cls in facts.election_classes(prog):
